@@ -663,6 +663,61 @@ Proof.
     change 0 with (blen []) in H. apply (Tiles_texts [] s body H).
 Qed.
 
+(* conversely, the readable clauses determine the cutting *)
+Lemma blen_firstn_le : forall k s, blen (firstn k s) <= blen s.
+Proof.
+  induction k as [|k IH]; intros [|c s]; cbn [firstn blen]; try lia. specialize (IH s). lia.
+Qed.
+
+Lemma boundary_split : forall done inp n, 0 < n ->
+  char_boundary (done ++ inp) (blen done + n) ->
+  exists pre rest, inp = pre ++ rest /\ blen pre = n /\ pre <> [].
+Proof.
+  intros done inp n Hn [k Hk].
+  destruct (Nat.le_gt_cases k (length done)) as [Hle|Hgt].
+  - rewrite firstn_app in Hk. replace (k - length done)%nat with 0%nat in Hk by lia.
+    cbn [firstn] in Hk. rewrite app_nil_r in Hk. pose proof (blen_firstn_le k done). lia.
+  - rewrite firstn_app, firstn_all2, blen_app in Hk by lia.
+    exists (firstn (k - length done) inp), (skipn (k - length done) inp).
+    split; [now rewrite firstn_skipn|]. split; [lia|].
+    intro E. rewrite E in Hk. cbn [blen] in Hk. lia.
+Qed.
+
+Lemma not_eof_iff : forall k, k <> KEof -> not_eof k = true.
+Proof. intros k H. destruct k; try reflexivity. congruence. Qed.
+
+Lemma clauses_Tiles : forall body done inp,
+  contiguous (blen done) (body ++ [eof_token (done ++ inp)]) ->
+  Forall (fun t => 0 < tk_len t /\ tk_kind t <> KEof) body ->
+  Forall (fun t => char_boundary (done ++ inp) (tk_end t)) body ->
+  Tiles (blen done) inp body.
+Proof.
+  induction body as [|t body IH]; intros done inp Hc Hb Hcb.
+  - cbn [app contiguous eof_token tk_start] in Hc. destruct Hc as [Hc _].
+    rewrite blen_app in Hc. destruct inp as [|c r]; [constructor|].
+    assert (Hne : c :: r <> []) by discriminate. pose proof (blen_nonempty (c :: r) Hne). exfalso. lia.
+  - cbn [app contiguous] in Hc. destruct Hc as [Hs Hc].
+    inversion Hb as [|t0 b0 [Hlen Hkind] Hb']; subst.
+    inversion Hcb as [|t1 b1 Hend Hcb']; subst.
+    destruct t as [k st ln]. cbn [tk_start tk_len tk_kind] in *. unfold tk_end in *. cbn [tk_start tk_len] in *.
+    subst st. destruct (boundary_split done inp ln Hlen Hend) as [pre [rest [-> [Hpl Hne]]]].
+    subst ln. apply Tiles_cons; [assumption|now apply not_eof_iff|].
+    rewrite <- blen_app. apply IH.
+    + rewrite <- app_assoc, blen_app. exact Hc.
+    + assumption.
+    + rewrite <- app_assoc. exact Hcb'.
+Qed.
+
+Lemma tiling_Tiles : forall s body, tiling s (body ++ [eof_token s]) -> Tiles 0 s body.
+Proof.
+  intros s body [body' [Heq [Hc [Hb [Hcb _]]]]].
+  apply app_inj_tail in Heq as [<- _].
+  change 0 with (blen []). apply (clauses_Tiles body [] s).
+  - exact Hc.
+  - exact Hb.
+  - apply Forall_app in Hcb as [Hcb _]. eapply Forall_impl; [|exact Hcb]. intros t [_ H]. exact H.
+Qed.
+
 Theorem tokenize_with_tiling : forall T, tables_ok T = true -> kinds_ok T = true ->
   forall s, exists toks, tokenize_with T s = TokOk toks /\ tiling s toks.
 Proof.
@@ -689,6 +744,13 @@ Theorem split_preserves_tiling : forall s body,
 Proof.
   intros s body H. unfold split_projection_float_tokens.
   change 0 with (blen []) in *. apply (split_go_tiles [] s body H).
+Qed.
+
+Theorem split_preserves_tiling_clauses : forall s body,
+  tiling s (body ++ [eof_token s]) ->
+  tiling s (split_projection_float_tokens body s ++ [eof_token s]).
+Proof.
+  intros s body H. apply Tiles_tiling, split_preserves_tiling, tiling_Tiles, H.
 Qed.
 
 (* fuel: the scanner consumes at least one character per token *)
